@@ -138,12 +138,9 @@ func c03Run(c *core.Ctx) {
 		}
 	}
 	// (2) splices of all ordered pairs, on the built-in tree and (thorough) on all trees
-	spliceTrees := []int{0, 3}
-	if c.Thorough() {
-		spliceTrees = nil
-		for i := 0; i < trees; i++ {
-			spliceTrees = append(spliceTrees, i)
-		}
+	var spliceTrees []int
+	for i := 0; i < trees; i++ {
+		spliceTrees = append(spliceTrees, i)
 	}
 	maxLen := 1300
 	if c.Thorough() {
